@@ -420,4 +420,245 @@ Theorem sem_printed_never_panics : forall p, sem_text_ok p = true ->
   forall s, sem_from_tree (sem_to_tree p) <> Panic s.
 Proof. intros p H s. rewrite (sem_print_parse p H). discriminate. Qed.
 
+(* ================================================================== concrete *)
+Lemma crun_app : forall a b st, crun st (a ++ b) = obind (crun st a) (fun s => crun s b).
+Proof.
+  induction a as [|x a IH]; intros b st; [reflexivity|].
+  cbn [app PolTextModel.crun]. destruct (cstep st x); cbn [obind]; auto.
+Qed.
+
+(* the root name as written under an `or` (b = true: with the odds in front) or elsewhere *)
+Definition pname (b : bool) (w : N) (name : tbytes) : tbytes := if b then dec w ++ AT :: name else name.
+Definition wprob (b : bool) (w : N) (t : etree) : etree := if b then with_prob w t else t.
+Definition wgt (b : bool) (w : N) : N := if b then w else 1.
+
+Lemma wprob_node : forall b w name p kids, wprob b w (ENode name p kids) = ENode (pname b w name) p kids.
+Proof. destruct b; reflexivity. Qed.
+
+Lemma sep_pname : forall b w name, noat name = true ->
+  sep_at (pname b w name) = Ok (if b then Some (dec w) else None, name).
+Proof.
+  intros b w name H. destruct b; cbn [pname].
+  - apply sep_at_full; [apply dec_noat | exact H].
+  - apply sep_at_plain. exact H.
+Qed.
+
+Lemma cskip_child : forall b w name n first, noat name = true -> n <> 1%nat ->
+  first && tb_eqb name n_thresh = false ->
+  cskip (Some (pname b w name, n, first)) = Ok (Some (tb_eqb name n_or)).
+Proof.
+  intros b w name n first Hn H1 Hf. cbn [cskip]. apply Nat.eqb_neq in H1. rewrite H1.
+  rewrite (sep_pname b w name Hn). cbn [obind]. rewrite Hf. reflexivity.
+Qed.
+
+Lemma cstep_node : forall b w name p kids parent st f new st1,
+  cskip parent = Ok (Some b) -> (b = true -> prob_ok w = true) -> noat name = true ->
+  pkind_of_name name = Some f -> cfrag f kids st = Ok (new, st1) ->
+  cstep st (mkItem (pname b w name) p kids parent) = Ok ((wgt b w, new) :: st1).
+Proof.
+  intros b w name p kids parent st f new st1 Hs Hw Hn Hk Hf.
+  unfold PolTextModel.cstep. cbn [it_parent it_name it_kids]. rewrite Hs. cbn [obind].
+  destruct b; cbn [pname wgt].
+  - rewrite (sep_at_full _ _ (dec_noat w) Hn). cbn [obind]. rewrite (pnn_dec w (Hw eq_refl)). cbn [obind].
+    rewrite Hk, Hf. reflexivity.
+  - cbn [obind]. rewrite Hk, Hf. reflexivity.
+Qed.
+
+Lemma crun_leaf_kids : forall l nm st, crun st (rpo_list nm (length (leaf_kids l)) (leaf_kids l) true) = Ok st.
+Proof. intros l nm st. destruct (leaf_kids_shape l) as [E|[s E]]; rewrite E; reflexivity. Qed.
+
+Definition Cbody (x : wpol) : Prop :=
+  forall parent b w st, cskip parent = Ok (Some b) -> (b = true -> prob_ok w = true) ->
+  crun st (rpo parent (wprob b w (conc_to_tree x))) = Ok ((wgt b w, x) :: st).
+
+Lemma c_leaf : forall l, leaf_ok l = true -> Cbody (WLeaf l).
+Proof.
+  intros l Hok parent b w st Hs Hw. cbn [PolTextModel.conc_to_tree].
+  rewrite leaf_tree_eq, wprob_node, rpo_eq, crun_app, crun_leaf_kids. cbn [obind PolTextModel.crun].
+  rewrite (cstep_node b w (leaf_name l) _ _ _ _ (leaf_kind l) (WLeaf l) st Hs Hw (leaf_name_noat l) (leaf_name_kind l));
+    [reflexivity|].
+  unfold PolTextModel.cfrag. rewrite (leaf_frag_printed l Hok). reflexivity.
+Qed.
+
+Lemma c_children : forall pb pw n xs st, n <> 1%nat -> Forall Cbody xs ->
+  crun st (rpo_list (pname pb pw n_thresh) n (map conc_to_tree xs) false) = Ok (map (fun x => (1, x)) xs ++ st).
+Proof.
+  intros pb pw n xs. induction xs as [|x r IH]; intros st Hn HF; [reflexivity|].
+  inversion HF as [|? ? Hx Hr]; subst. cbn [map rpo_list]. rewrite crun_app.
+  rewrite (IH st Hn Hr). cbn [obind].
+  rewrite (Hx _ false 1 _ (cskip_child pb pw n_thresh n false eq_refl Hn eq_refl)); [reflexivity|discriminate].
+Qed.
+
+Lemma conc_ok_thresh : forall k subs, conc_text_ok (WThresh k subs) = true ->
+  k <> 0 /\ k <= N.of_nat (length subs) /\ k <= U32_MAX /\ Forall (fun x => conc_text_ok x = true) subs.
+Proof.
+  intros k subs H. cbn [conc_text_ok] in H.
+  apply andb_prop in H. destruct H as [H H3]. apply andb_prop in H. destruct H as [H1 H2].
+  repeat split.
+  - eapply validate_pos; exact H1.
+  - eapply validate_le; exact H1.
+  - apply N.leb_le. exact H2.
+  - apply Forall_forall. intros x Hx. rewrite forallb_forall in H3. apply H3. exact Hx.
+Qed.
+
+Lemma two_ne_one : 2%nat <> 1%nat. Proof. discriminate. Qed.
+
+Theorem conc_body : forall p, conc_text_ok p = true -> Cbody p.
+Proof.
+  induction p using wpol_ind'; intros Hok.
+  - apply c_leaf. exact Hok.
+  - (* and *)
+    cbn [conc_text_ok] in Hok. apply andb_prop in Hok. destruct Hok as [Hl Hf].
+    destruct subs as [|x [|y [|z r]]]; try discriminate.
+    cbn [forallb] in Hf. apply andb_prop in Hf. destruct Hf as [Hx Hf]. apply andb_prop in Hf. destruct Hf as [Hy _].
+    inversion H as [|? ? Bx H']; subst. inversion H' as [|? ? By _]; subst.
+    intros parent b w st Hs Hw. cbn [PolTextModel.conc_to_tree map]. unfold fnode.
+    rewrite wprob_node, rpo_eq. cbn [length rpo_list app]. rewrite !crun_app.
+    rewrite (By Hy _ false 1 _ (cskip_child b w n_and 2 false eq_refl two_ne_one eq_refl)); [|discriminate].
+    cbn [obind wprob].
+    rewrite (Bx Hx _ false 1 _ (cskip_child b w n_and 2 true eq_refl two_ne_one eq_refl)); [|discriminate].
+    cbn [obind PolTextModel.crun wgt].
+    rewrite (cstep_node b w n_and _ _ _ _ KAnd (WAnd [x; y]) st Hs Hw eq_refl eq_refl); reflexivity.
+  - (* or *)
+    cbn [conc_text_ok] in Hok. apply andb_prop in Hok. destruct Hok as [Hl Hf].
+    destruct subs as [|[wx x] [|[wy y] [|z r]]]; try discriminate.
+    cbn [forallb] in Hf. apply andb_prop in Hf. destruct Hf as [Hx Hf]. apply andb_prop in Hf. destruct Hf as [Hy _].
+    apply andb_prop in Hx. destruct Hx as [Wx Hx]. apply andb_prop in Hy. destruct Hy as [Wy Hy].
+    inversion H as [|? ? Bx H']; subst. inversion H' as [|? ? By _]; subst. cbn [snd] in Bx, By.
+    intros parent b w st Hs Hw. cbn [PolTextModel.conc_to_tree map]. unfold fnode.
+    rewrite wprob_node, rpo_eq. cbn [length rpo_list app]. rewrite !crun_app.
+    change (with_prob wy (conc_to_tree y)) with (wprob true wy (conc_to_tree y)).
+    change (with_prob wx (conc_to_tree x)) with (wprob true wx (conc_to_tree x)).
+    rewrite (By Hy _ true wy _ (cskip_child b w n_or 2 false eq_refl two_ne_one eq_refl) (fun _ => Wy)).
+    cbn [obind].
+    rewrite (Bx Hx _ true wx _ (cskip_child b w n_or 2 true eq_refl two_ne_one eq_refl) (fun _ => Wx)).
+    cbn [obind PolTextModel.crun wgt].
+    rewrite (cstep_node b w n_or _ _ _ _ KOr (WOr [(wx, x); (wy, y)]) st Hs Hw eq_refl eq_refl); reflexivity.
+  - (* thresh *)
+    destruct (conc_ok_thresh k subs Hok) as [Hp [Hle [Hu HF]]].
+    assert (HB : Forall Cbody subs).
+    { apply Forall_forall. intros x Hx. rewrite Forall_forall in H, HF. apply H; [exact Hx|]. apply HF. exact Hx. }
+    assert (Hlen : length (map conc_to_tree subs) = length subs) by apply map_length.
+    assert (E1 : Nat.eqb (S (length subs)) 1 = false).
+    { destruct subs; [cbn in Hle; lia | reflexivity]. }
+    intros parent b w st Hs Hw. cbn [PolTextModel.conc_to_tree]. unfold fnode.
+    rewrite wprob_node, rpo_eq. cbn [length rpo_list]. rewrite !crun_app.
+    rewrite (c_children b w _ subs st); [|rewrite Hlen; apply Nat.eqb_neq; exact E1 | exact HB].
+    cbn [obind]. rewrite Hlen.
+    replace (crun (map (fun x => (1, x)) subs ++ st)
+                  (rpo (Some (pname b w n_thresh, S (length subs), true)) (leaf (dec k))))
+      with (@Ok pol_err _ (map (fun x : wpol => (1, x)) subs ++ st)).
+    2:{ cbn [rpo leaf app PolTextModel.crun]. unfold PolTextModel.cstep. cbn [it_parent cskip].
+        rewrite E1. rewrite (sep_pname b w n_thresh eq_refl). reflexivity. }
+    cbn [obind PolTextModel.crun].
+    rewrite (cstep_node b w n_thresh _ _ _ _ KThresh (WThresh k subs) st Hs Hw eq_refl eq_refl); [reflexivity|].
+    unfold PolTextModel.cfrag. cbn [PolTextModel.leaf_frag]. unfold verify_threshold, leaf.
+    cbn [n_kids length t_name]. rewrite (parse_num_dec _ Hu). rewrite ?Hlen.
+    rewrite validate_intro by assumption. cbn [lift_ms obind]. rewrite ?Hlen.
+    rewrite <- (map_length (fun x : wpol => (1, x)) subs). rewrite gpop_n_app. cbn [obind].
+    rewrite map_map. cbn [snd]. rewrite map_id. reflexivity.
+Qed.
+
+Lemma hc_with_prob : forall w t, has_curly (with_prob w t) = has_curly t.
+Proof. intros w [name p kids]. reflexivity. Qed.
+
+Lemma hc_conc : forall p, has_curly (conc_to_tree p) = false.
+Proof.
+  induction p using wpol_ind'; cbn [PolTextModel.conc_to_tree].
+  - apply hc_leaf_tree.
+  - apply hc_fnode. apply existsb_map_false. exact H.
+  - apply hc_fnode. apply existsb_map_false. eapply Forall_impl; [|exact H].
+    intros [w q] Hq. cbn [snd] in Hq. rewrite hc_with_prob. exact Hq.
+  - apply hc_fnode. cbn [existsb leaf has_curly orb]. apply existsb_map_false. exact H.
+Qed.
+
+Theorem conc_print_parse : forall p, conc_text_ok p = true -> conc_from_tree (conc_to_tree p) = Ok p.
+Proof.
+  intros p H. unfold PolTextModel.conc_from_tree. rewrite hc_conc.
+  assert (E : crun [] (rpo None (conc_to_tree p)) = Ok [(1, p)]).
+  { apply (conc_body p H None false 1 [] eq_refl). discriminate. }
+  rewrite E. reflexivity.
+Qed.
+
+(* ---- whatever the concrete parser returns satisfies its own checks *)
+Definition okc (wp : N * wpol) : Prop := prob_ok (fst wp) && conc_text_ok (snd wp) = true.
+
+Lemma okc_snd : forall l, Forall okc l -> forallb conc_text_ok (map snd l) = true.
+Proof.
+  intros l H. induction H as [|x r Hx HF IH]; [reflexivity|]. cbn [map forallb]. rewrite IH.
+  unfold okc in Hx. apply andb_prop in Hx. destruct Hx as [_ Hx]. rewrite Hx. reflexivity.
+Qed.
+
+Lemma cfrag_ok : forall f kids st new st1, cfrag f kids st = Ok (new, st1) -> Forall okc st ->
+  conc_text_ok new = true /\ Forall okc st1.
+Proof.
+  intros f kids st new st1 H HF. unfold PolTextModel.cfrag in H.
+  destruct (leaf_frag f kids) as [o|] eqn:El.
+  - destruct o as [l| |]; cbn in H; inversion H; subst. split; [|exact HF].
+    cbn [conc_text_ok]. eapply leaf_frag_valid; exact El.
+  - destruct (leaf_frag_composite _ _ El) as [->|[->| ->]].
+    + destruct kids as [|a [|b [|c r]]]; try discriminate.
+      destruct st as [|x [|y st2]]; try discriminate. cbn [gpop obind] in H. inversion H; subst.
+      inversion HF as [|? ? Hx HF']; subst. inversion HF' as [|? ? Hy HF'']; subst. split; [|exact HF''].
+      unfold okc in Hx, Hy. apply andb_prop in Hx, Hy. destruct Hx as [_ Hx]. destruct Hy as [_ Hy].
+      cbn [conc_text_ok length Nat.eqb forallb andb]. rewrite Hx, Hy. reflexivity.
+    + destruct kids as [|a [|b [|c r]]]; try discriminate.
+      destruct st as [|x [|y st2]]; try discriminate. cbn [gpop obind] in H. inversion H; subst.
+      inversion HF as [|? ? Hx HF']; subst. inversion HF' as [|? ? Hy HF'']; subst. split; [|exact HF''].
+      destruct x as [wx x], y as [wy y]. unfold okc in Hx, Hy. cbn [fst snd] in Hx, Hy.
+      cbn [conc_text_ok length Nat.eqb forallb andb]. rewrite Hx, Hy. reflexivity.
+    + destruct (verify_threshold 0 kids) as [[k rest]| |] eqn:Ev; cbn [lift_ms obind] in H; try discriminate.
+      destruct (vth_spec _ _ _ _ Ev) as [Hv Hu].
+      destruct (gpop_n (length rest) st) as [[subs r]| |] eqn:Ep; cbn [obind] in H; try discriminate.
+      inversion H; subst. destruct (gpop_n_spec _ _ _ _ _ Ep) as [-> Hl]. destruct (Forall_app_inv _ _ _ _ HF) as [Fa Fb].
+      split; [|exact Fb]. cbn [conc_text_ok]. rewrite map_length, Hl, Hv.
+      replace (k <=? U32_MAX) with true by (symmetry; apply N.leb_le; exact Hu).
+      rewrite (okc_snd _ Fa). reflexivity.
+Qed.
+
+Lemma cstep_ok : forall st it st', cstep st it = Ok st' -> Forall okc st -> Forall okc st'.
+Proof.
+  intros st it st' H HF. unfold PolTextModel.cstep in H.
+  destruct (cskip (it_parent it)) as [o| |]; cbn [obind] in H; try discriminate.
+  destruct o as [b|]; [|inversion H; subst; exact HF].
+  destruct (if b then sep_at (it_name it) else Ok (None, it_name it)) as [[fp nm]| |]; cbn [obind] in H; try discriminate.
+  destruct (match fp with None => Ok 1 | Some s => parse_num_nonzero s end) as [prob| |] eqn:Ep;
+    cbn [obind] in H; try discriminate.
+  assert (Hp : prob_ok prob = true).
+  { destruct fp as [s|]; [eapply pnn_spec; exact Ep | inversion Ep; reflexivity]. }
+  destruct (pkind_of_name nm) as [f|]; [|discriminate].
+  destruct (cfrag f (it_kids it) st) as [[new st1]| |] eqn:E; cbn [obind] in H; inversion H; subst.
+  destruct (cfrag_ok _ _ _ _ _ E HF) as [A B]. constructor; [|exact B].
+  unfold okc. cbn [fst snd]. rewrite Hp, A. reflexivity.
+Qed.
+
+Lemma crun_ok : forall items st st', crun st items = Ok st' -> Forall okc st -> Forall okc st'.
+Proof.
+  induction items as [|it r IH]; intros st st' H HF.
+  - inversion H; subst. exact HF.
+  - cbn [PolTextModel.crun] in H. destruct (cstep st it) as [s1| |] eqn:E; cbn [obind] in H; try discriminate.
+    eapply IH; [exact H|]. eapply cstep_ok; eauto.
+Qed.
+
+Theorem conc_parse_valid : forall t p, conc_from_tree t = Ok p -> conc_text_ok p = true.
+Proof.
+  intros t p H. unfold PolTextModel.conc_from_tree in H. destruct (has_curly t); [discriminate|].
+  destruct (crun [] (rpo None t)) as [s| |] eqn:E; try discriminate.
+  destruct s as [|[w x] [|? ?]]; try discriminate. inversion H; subst.
+  pose proof (crun_ok _ _ _ E (Forall_nil _)) as F. inversion F as [|? ? Hx _]; subst.
+  unfold okc in Hx. apply andb_prop in Hx. destruct Hx as [_ Hx]. exact Hx.
+Qed.
+
+Theorem conc_print_fixpoint : forall t p, conc_from_tree t = Ok p ->
+  conc_from_tree (conc_to_tree p) = Ok p /\
+  (forall q, conc_from_tree (conc_to_tree p) = Ok q -> conc_to_tree q = conc_to_tree p).
+Proof.
+  intros t p H. pose proof (conc_print_parse p (conc_parse_valid t p H)) as E. split; [exact E|].
+  intros q Hq. rewrite E in Hq. inversion Hq. reflexivity.
+Qed.
+
+Theorem conc_printed_never_panics : forall p, conc_text_ok p = true ->
+  forall s, conc_from_tree (conc_to_tree p) <> Panic s.
+Proof. intros p H s. rewrite (conc_print_parse p H). discriminate. Qed.
+
 End PolTextProofs.
